@@ -293,7 +293,9 @@ example : Good FS.frameDec { buf := if [0x04, 0x00] = [] then [] else [[0x04, 0x
       `u8` shifts or `size - 1` — on every byte string (C15);
     * the Huffman decoder never runs out of the model's bound (C15);
     * `Header::try_from` + `into_request_parts` / `into_response_parts` / `into_fields` on every
-      field list return `Ok` or a `HeaderError`, never the panic outcome (C12, after 8fb18d1). -/
+      field list return `Ok` or a `HeaderError`, never the panic outcome (C12, after 8fb18d1; also
+      with the D-01 repair, where a map that cannot be pre-sized starts empty and a full map is
+      reported by `try_append`). -/
 theorem C06_field_sections :
     (∀ (b : List Nat) (max : Nat), Qpack.decodeStateless b max ≠ .err .fuel) ∧
     (∀ (mfs : Nat) (applied : Option Nat) (block : List Nat), Qpack.serverResolve mfs applied block ≠ .panic) ∧
